@@ -64,6 +64,52 @@ type pcase struct {
 	opt      int   // index into optionSets: the options the caller puts on the query (0: the options of the original scenarios)
 	mut      int   // caller operation on the ORIGINAL *Query after Iter() returned (mutNone: the caller leaves it alone)
 	mutAt    int   // ... performed by the consumer thread after it has seen this many rows (0: right after Iter(), before the first row)
+	retry    int   // retry policy on the paged query (retryNone: none): a scripted policy whose decision for every failed fetch is a free choice
+}
+
+// ---- retry policy dimension: every failed page fetch is put before a scripted RetryPolicy whose answer is a FREE
+// choice point (Retry / RetryNextHost / Rethrow / Ignore, every alternative explored)
+const (
+	retryNone    = iota
+	retryQuery   // Query.RetryPolicy(scripted)
+	retryCluster // ClusterConfig.RetryPolicy = scripted, inherited by the query (and by its next-page copies)
+)
+
+var retryName = []string{"none", "on-query", "from-cluster"}
+
+var retryDecisions = []gocql.RetryType{gocql.Retry, gocql.RetryNextHost, gocql.Rethrow, gocql.Ignore}
+var retryDecisionName = []string{"Retry", "RetryNextHost", "Rethrow", "Ignore"}
+
+// retryBudget: the policy's Attempt answers true for this many failed fetches of one iteration, then false
+// (the executor then hands the failed attempt back, like Rethrow). Failures cost F, so F bounds the consultations too.
+const retryBudget = 3
+
+type consultRec struct {
+	seq      int // position in the common sequence of requests and consultations
+	err      string
+	decision int // index into retryDecisions
+}
+
+type scriptRP struct{ w *world }
+
+func (p *scriptRP) Attempt(q gocql.RetryableQuery) bool { return len(p.w.consults) < retryBudget }
+
+func (p *scriptRP) GetRetryType(err error) gocql.RetryType {
+	d := vs.Choose(len(retryDecisions), vs.Free)
+	p.w.seq++
+	p.w.consults = append(p.w.consults, consultRec{p.w.seq, fmt.Sprint(err), d})
+	return retryDecisions[d]
+}
+
+func withRetry(cs []pcase, kinds ...int) []pcase {
+	var out []pcase
+	for _, k := range kinds {
+		for _, c := range cs {
+			c.retry = k
+			out = append(out, c)
+		}
+	}
+	return out
 }
 
 func (p pcase) String() string {
@@ -79,6 +125,9 @@ func (p pcase) String() string {
 	}
 	if p.mut != mutNone {
 		s += fmt.Sprintf(" caller-does-%s-after-row-%d", mutName[p.mut], p.mutAt)
+	}
+	if p.retry != retryNone {
+		s += " scripted-retry-policy-" + retryName[p.retry]
 	}
 	return s
 }
@@ -336,6 +385,7 @@ type dataReq struct {
 	at       time.Duration
 	by       string // "c": requested by the consumer thread, "a": by the asynchronous prefetch goroutine, "s": executor goroutine
 	node     string
+	seq      int // position in the common sequence of requests and retry-policy consultations
 }
 
 func (d dataReq) String() string {
@@ -353,6 +403,8 @@ type world struct {
 	prepares int
 	faulted  bool
 	maxReqs  int
+	seq      int
+	consults []consultRec // what the scripted retry policy was asked and what it answered
 }
 
 func renderOptions(p *frame.QueryParams) string {
@@ -409,6 +461,8 @@ func (w *world) handler() vnode.Handler {
 			d.hasTS, d.ts = true, *params.Timestamp
 		}
 		d.at = vs.Clock()
+		w.seq++
+		d.seq = w.seq
 		// the node is synchronous: the handler runs inside the Write of the requesting thread
 		d.by = "c"
 		if _, tn := vs.CurrentThread(); strings.Contains(tn, "fetchAsync") {
@@ -492,7 +546,8 @@ type c15scn struct {
 
 type result struct {
 	rows      []row
-	err       error  // what Close() / Scanner.Err() / SliceMap returned
+	err       error  // the iteration's error as the consumer API reports it: Close() after Scan/MapScan, Scanner.Err(), the error SliceMap RETURNED
+	closeErr  error  // SliceMap consumer only: what Close() said afterwards (not the result of the iteration: SliceMap's callers look at its return values)
 	firstErr  string // where the first error was seen
 	stateAt0  []byte // Iter.PageState() right after Iter()
 	stateEnd  []byte // Iter.PageState() after the rows were consumed (nil for the Scanner consumer)
@@ -561,21 +616,23 @@ func consume(it *gocql.Iter, consumer int, onRow func(n int)) (r result) {
 			}
 			r.rows = append(r.rows, rw)
 		}
+		// The result of the iteration is what SliceMap RETURNED. (Until round 4 the harness let a later Close()
+		// overwrite it: a SliceMap that returned the rows of the pages before a failed fetch together with a nil
+		// error was taken for an error outcome, because Close() still knew the error.)
+		r.stateEnd = append([]byte(nil), it.PageState()...)
+		r.haveEnd = true
+		r.err = err
 		if err != nil {
-			r.err = err
 			r.firstErr = "SliceMap"
 		}
+		r.closeErr = it.Close()
+		return r
 	}
 	r.stateEnd = append([]byte(nil), it.PageState()...)
 	r.haveEnd = true
 	if cerr := it.Close(); cerr != nil {
-		if r.err == nil {
-			r.firstErr = "Close"
-		}
+		r.firstErr = "Close"
 		r.err = cerr
-	} else if r.err != nil {
-		// SliceMap reported an error that Close() does not know about: keep it (still an error outcome)
-		r.firstErr = "SliceMap only"
 	}
 	return r
 }
@@ -598,6 +655,10 @@ func (s *c15scn) body() {
 	if pc.spec {
 		w.maxReqs = 2*len(pc.script) + 3
 	}
+	if pc.retry != retryNone {
+		w.maxReqs += retryBudget
+	}
+	rp := &scriptRP{w}
 	cl := newCluster(true)
 	ips := []string{"10.0.0.1"}
 	if s.hosts == 2 {
@@ -619,6 +680,9 @@ func (s *c15scn) body() {
 	opts := optionSets[pc.opt]
 	if opts.serial == serialCluster {
 		cfg.SerialConsistency = gocql.LocalSerial
+	}
+	if pc.retry == retryCluster {
+		cfg.RetryPolicy = rp
 	}
 	vs.Quiet(true)
 	sess, err := gocql.VerifNewSession(*cfg, true)
@@ -654,6 +718,13 @@ func (s *c15scn) body() {
 			supplied = stateOf(pc.start)
 		}
 		q = q.PageState(supplied)
+	}
+
+	switch pc.retry {
+	case retryQuery:
+		q = q.RetryPolicy(rp).Idempotent(true)
+	case retryCluster:
+		q = q.Idempotent(true) // ("Non-idempotent query won't be retried": a paged SELECT is idempotent)
 	}
 
 	const specAttempts = 1
@@ -712,7 +783,18 @@ func (s *c15scn) body() {
 		for _, x := range r.rows {
 			got = append(got, x.v)
 		}
-		return fmt.Sprintf("%s; %s; result=%s (%v) rows=%v; requests=[%s]", cf, pc, gocql.VerifErrClass(r.err), r.err, got, strings.Join(rq, "; "))
+		pol := ""
+		if pc.retry != retryNone {
+			var cs []string
+			for _, c := range w.consults {
+				cs = append(cs, fmt.Sprintf("%q -> %s", c.err, retryDecisionName[c.decision]))
+			}
+			pol = fmt.Sprintf("; retry policy consulted: [%s]", strings.Join(cs, "; "))
+		}
+		if cf.consumer == consSliceMap {
+			pol += fmt.Sprintf("; Close() after SliceMap = %v", r.closeErr)
+		}
+		return fmt.Sprintf("%s; %s; result=%s (%v) rows=%v; requests=[%s]%s", cf, pc, gocql.VerifErrClass(r.err), r.err, got, strings.Join(rq, "; "), pol)
 	}
 
 	// rows the consumer must see
@@ -779,11 +861,43 @@ func (s *c15scn) body() {
 		// was requested and failed must surface even if it would have been empty
 		vs.Failf("c15:failed-fetch-reported-as-normal-end", "the fetch of a page failed but Close()/Err() returned nil: %s", desc())
 	}
+	// the scripted retry policy: it is consulted only for an attempt that failed as the CLIENT saw it. Once it has
+	// answered Rethrow or Ignore for a page fetch the executor stops, that fetch has failed, and nothing is fetched
+	// afterwards (so it is the last consultation): the iteration must end with an error. (RetryType Ignore is
+	// commented "ignore error and return result"; a failed page fetch has no result - rows are missing - so ending
+	// normally would be exactly the early normal end the property forbids. See NOTES.md.)
+	retryDecisionsMade := 0
+	for _, c := range w.consults {
+		if d := retryDecisions[c.decision]; d == gocql.Retry || d == gocql.RetryNextHost {
+			retryDecisionsMade++
+		}
+	}
+	if n := len(w.consults); n > 0 && r.err == nil {
+		if d := retryDecisions[w.consults[n-1].decision]; d == gocql.Rethrow || d == gocql.Ignore {
+			vs.Failf("c15:failed-fetch-reported-as-normal-end", "a page fetch failed (%s), the retry policy answered %s, and the iteration ended without an error after %d of %d rows: %s",
+				w.consults[n-1].err, retryDecisionName[w.consults[n-1].decision], len(r.rows), len(want), desc())
+		}
+	}
+	// ... and when the policy had a failed fetch repeated and the repetition was served - every page of the result was
+	// served in the end - there is no failed fetch left to report
+	if pc.retry != retryNone && (r.err != nil || r.closeErr != nil) && dDev == 0 && !callerCancelled {
+		allServed := true
+		for p := first; p <= last; p++ {
+			ok := false
+			for _, d := range w.reqs {
+				ok = ok || (d.page == p && d.fate == "ok")
+			}
+			allServed = allServed && ok
+		}
+		if allServed {
+			vs.Failf("c15:error-although-every-page-was-served", "the retry policy had the failed fetch repeated, every page was served in the end, no timer fired early, but the iteration reported %v / %v: %s", r.err, r.closeErr, desc())
+		}
+	}
 	// an error needs a cause: a failed fetch, a timer that fired while the reply was in flight (D deviation), or the
 	// CALLER cancelling the context it gave to the query. (The executor's own cancellation of the per-attempt context
 	// of a speculative execution is not a cause: it must not leak into the fetch of later pages.)
-	if r.err != nil && !w.faulted && dDev == 0 && !callerCancelled {
-		vs.Failf("c15:error-without-failed-fetch", "every page was served, no timer fired early, the caller did not cancel, but the iteration reported %v (first seen by %s): %s", r.err, r.firstErr, desc())
+	if (r.err != nil || r.closeErr != nil) && !w.faulted && dDev == 0 && !callerCancelled {
+		vs.Failf("c15:error-without-failed-fetch", "every page was served, no timer fired early, the caller did not cancel, but the iteration reported %v / %v (first seen by %s): %s", r.err, r.closeErr, r.firstErr, desc())
 	}
 
 	// every request must be decodable by a node that reads <query_parameters> in the order of the specification
@@ -814,10 +928,17 @@ func (s *c15scn) body() {
 			cur = d.page
 			continue
 		}
-		count := 0
+		count, prevSeq := 0, 0
 		for _, e := range w.reqs[:i] {
 			if e.page == d.page {
 				count++
+				prevSeq = e.seq
+			}
+		}
+		retried := false // the retry policy answered Retry / RetryNextHost between the previous request for this page and this one
+		for _, c := range w.consults {
+			if dd := retryDecisions[c.decision]; (dd == gocql.Retry || dd == gocql.RetryNextHost) && c.seq > prevSeq && c.seq < d.seq {
+				retried = true
 			}
 		}
 		switch {
@@ -826,6 +947,8 @@ func (s *c15scn) body() {
 		case count > 0 && pc.spec && count < 1+specAttempts && (dDev > 0 || w.faulted):
 			// speculative execution: once the 50ms delay has elapsed (possible only after a D deviation or while an
 			// unanswered request keeps the client waiting) ONE more attempt of the same page goes to the next host
+		case count > 0 && !s.manual && retried && d.page == cur:
+			// the fetch of the current page failed (as the client saw it) and the policy decided to repeat it
 		case count > 0:
 			vs.Failf("c15:page-requested-twice", "request %d asks for page %d again: %s", i, d.page+1, desc())
 		default:
@@ -836,6 +959,7 @@ func (s *c15scn) body() {
 	if pc.spec {
 		maxReqs *= 1 + specAttempts
 	}
+	maxReqs += retryDecisionsMade
 	if cur > last || len(w.reqs) > maxReqs {
 		vs.Failf("c15:request-after-last-page", "%d page requests for %d pages: %s", len(w.reqs), last-first+1, desc())
 	}
@@ -1119,6 +1243,42 @@ func scenarios(thorough bool) []*c15scn {
 		// one pair deeper (a single alternative: the engine then shards over the schedule deviations, evenly)
 		if !thorough { // (contained in the previous scenario at T=2 in the thorough tier)
 			add(&c15scn{name: "speculative-deep", hosts: 2, combos: []combo{{cA, pcase{script: []int{2, 1}, spec: true}}}, quick: b(2), thor: b(2)})
+		}
+	}
+	// 4. a RETRY POLICY on the paged query (round 4): every page fetch goes through queryExecutor.do, which puts a failed
+	// attempt before the query's retry policy. The policy is scripted: its answer to every failed fetch is a FREE choice
+	// among Retry / RetryNextHost / Rethrow / Ignore (set with Query.RetryPolicy, or inherited from ClusterConfig.RetryPolicy).
+	// Two nodes serve the same script (RetryNextHost then really goes to another host; after "drop" Retry finds no
+	// connection on the same host and moves on as well); one scenario has a single host (RetryNextHost then runs out of
+	// hosts and the executor builds a fresh error Iter). Failing page fetch: every page x 3 failure kinds (cost F).
+	{
+		retryConfs := product([]float64{0, 1}, []int{3}, []int{prepNo, prepSkip}, allCons)
+		if !thorough {
+			// quick: 16 configurations (prefetch 0/1, unprepared / prepared+skipmeta, 4 consumers) x {the 4 one-page scripts,
+			// the 9 two-page scripts over {0,1,2}} (policy on the query) and x the 4 two-page scripts over {0,2} (policy from
+			// the cluster); the 8 unprepared ones x the 8 three-page scripts over {0,2}: a failure at the first, a middle
+			// and the last page, empty or not, for every consumer
+			cs := cross(retryConfs, withRetry(autoCases(append(scripts(1, 1, rowsAlpha), scripts(2, 2, []int{0, 1, 2})...)), retryQuery))
+			cs = append(cs, cross(retryConfs, withRetry(autoCases(scripts(2, 2, []int{0, 2})), retryCluster))...)
+			cs = append(cs, cross(product([]float64{0, 1}, []int{3}, []int{prepNo}, allCons), withRetry(autoCases(scripts(3, 3, []int{0, 2})), retryQuery))...)
+			add(&c15scn{name: "wide-retry", hosts: 2, combos: byWeight(cs), quick: onlyFaults, thor: onlyFaults})
+		} else {
+			add(&c15scn{name: "wide-retry+", hosts: 2, confs: product(allPrefetch, pageSizes, allPrep, allCons),
+				cases: append(withRetry(autoCases(scripts(1, 3, rowsAlpha)), retryQuery), withRetry(autoCases(scripts(2, 2, rowsAlpha)), retryCluster)...), quick: onlyFaults, thor: onlyFaults})
+		}
+		add(&c15scn{name: "wide-retry-one-host", hosts: 1, confs: product([]float64{0, 1}, []int{3}, []int{prepNo}, allCons),
+			cases: withRetry(autoCases(scripts(1, 2, rowsAlpha)), retryQuery), quick: onlyFaults, thor: b(1)})
+		// two failures / schedule and timer deviations: the prefetch goroutine consults the policy while the consumer
+		// reads on; a repeated fetch fails again; a timeout fires although the node answered
+		rd := cross([]conf{{0.5, 3, prepNo, consScan}, {1, 3, prepNo, consSliceMap}}, withRetry([]pcase{sc(2, 1)}, retryQuery))
+		if !thorough {
+			// two failures, or one failure and one schedule / timer deviation
+			add(&c15scn{name: "retry-deep", hosts: 2, combos: rd, quick: vs.Bounds{P: 1, D: 1, F: 2, T: 2}, thor: b(2)})
+		} else {
+			rd = append(rd, combo{conf{0, 3, prepNo, consScanner}, pcase{script: []int{1, 0}, retry: retryQuery}},
+				combo{conf{1, 100, prepSkip, consMapScan}, pcase{script: []int{1, 1}, retry: retryCluster}},
+				combo{conf{0.25, 3, prepNoSkip, consScan}, pcase{script: []int{2, 0, 1}, retry: retryQuery}})
+			add(&c15scn{name: "retry-deep+", hosts: 2, combos: byWeight(rd), quick: b(2), thor: b(2)})
 		}
 	}
 	if thorough {
